@@ -565,6 +565,8 @@ fn by_keys(ev: &Eval, xs: &[Value], x: &N, at: usize, fname: &str) -> R<Vec<Valu
 /// specification leaves a choice (ties of max_by/min_by).
 pub enum Spec {
     Exactly(Value),
+    /// the result is built from input elements: identical JSON text required
+    Same(Value),
     AnyOf(Vec<Value>),
     /// compared after re-parsing as JSON (to_string of a non-string)
     JsonTextOf(Value),
@@ -582,6 +584,7 @@ impl Builtins {
         }
         use Spec::*;
         let ex = |v: Value| Some(Ok(Exactly(v)));
+        let same = |v: Value| Some(Ok(Same(v)));
         let num = |x: f64| match f64_to_value(x) {
             Some(v) => Some(Ok(Exactly(v))),
             None => Some(Ok(NonFinite)),
@@ -629,7 +632,7 @@ impl Builtins {
                     .map(|k| Value::String(k.clone()))
                     .collect(),
             )),
-            "values" => ex(Value::Array(
+            "values" => same(Value::Array(
                 as_j(&args[0]).as_object().unwrap().values().cloned().collect(),
             )),
             "length" => ex(Value::from(match as_j(&args[0]) {
@@ -648,7 +651,7 @@ impl Builtins {
                         Err(e) => return Some(Err(e)),
                     }
                 }
-                ex(Value::Array(out))
+                same(Value::Array(out))
             }
             "max" | "min" => {
                 let a = as_arr(&args[0]);
@@ -703,18 +706,18 @@ impl Builtins {
                         m.insert(k.clone(), v.clone());
                     }
                 }
-                ex(Value::Object(m))
+                same(Value::Object(m))
             }
             "not_null" => {
                 for a in args {
                     if !as_j(a).is_null() {
-                        return ex(as_j(a).clone());
+                        return same(as_j(a).clone());
                     }
                 }
                 ex(Value::Null)
             }
             "reverse" => match as_j(&args[0]) {
-                Value::Array(a) => ex(Value::Array(a.iter().rev().cloned().collect())),
+                Value::Array(a) => same(Value::Array(a.iter().rev().cloned().collect())),
                 Value::String(s) => ex(Value::String(s.chars().rev().collect())),
                 _ => unreachable!(),
             },
@@ -728,7 +731,7 @@ impl Builtins {
                         j -= 1;
                     }
                 }
-                ex(Value::Array(a))
+                same(Value::Array(a))
             }
             "sort_by" => {
                 let a = as_arr(&args[0]);
@@ -746,14 +749,14 @@ impl Builtins {
                         j -= 1;
                     }
                 }
-                ex(Value::Array(idx.into_iter().map(|i| a[i].clone()).collect()))
+                same(Value::Array(idx.into_iter().map(|i| a[i].clone()).collect()))
             }
             "to_array" => match as_j(&args[0]) {
-                Value::Array(_) => ex(as_j(&args[0]).clone()),
-                other => ex(Value::Array(vec![other.clone()])),
+                Value::Array(_) => same(as_j(&args[0]).clone()),
+                other => same(Value::Array(vec![other.clone()])),
             },
             "to_number" => match as_j(&args[0]) {
-                Value::Number(_) => ex(as_j(&args[0]).clone()),
+                Value::Number(_) => same(as_j(&args[0]).clone()),
                 Value::String(s) => match classify_number_text(s) {
                     NumText::Number(v) => ex(v),
                     NumText::NotANumber => ex(Value::Null),
@@ -762,7 +765,7 @@ impl Builtins {
                 _ => ex(Value::Null),
             },
             "to_string" => match as_j(&args[0]) {
-                Value::String(_) => ex(as_j(&args[0]).clone()),
+                Value::String(_) => same(as_j(&args[0]).clone()),
                 other => Some(Ok(JsonTextOf(other.clone()))),
             },
             "type" => ex(Value::String(type_name(as_j(&args[0])).into())),
@@ -847,7 +850,7 @@ impl Funcs for Builtins {
     fn call(&self, ev: &Eval, name: &str, args: &[V], at: usize) -> Option<R<V>> {
         match Builtins::spec(ev, name, args, at)? {
             Err(e) => Some(Err(e)),
-            Ok(Spec::Exactly(v)) => Some(Ok(V::J(v))),
+            Ok(Spec::Exactly(v)) | Ok(Spec::Same(v)) => Some(Ok(V::J(v))),
             Ok(Spec::AnyOf(vs)) => {
                 // a choice among differently spelled candidates makes every
                 // enclosing expression unspecified
